@@ -206,7 +206,16 @@ def check(run):
             if a.kind == 'move' and a.field != P + '::drop_fun':
                 continue
             root_ = q.access_root(a.node)
-            if is_node(root_) and root_['k'] == 'ref' and root_.get('dk') == 'local' and 'packet' in f.ty(root_.get('t', -1)) if is_node(root_) and 't' in root_ else False:
+            def _fresh_local(r_):
+                """a packet local the hop default-constructs (not one initialised from the packet that came in - a by-value
+                parameter of a helper spliced into this view is such an alias)"""
+                if not (is_node(r_) and r_['k'] == 'ref' and r_.get('dk') == 'local' and 't' in r_ and 'packet' in f.ty(r_['t'])):
+                    return False
+                for _s, d_ in q.local_defs(f, r_['did']):
+                    if any(x['k'] == 'ref' and x.get('dk') in ('param', 'local') and 't' in x and 'packet' in f.ty(x['t']) for x in walk(d_)):
+                        return False
+                return True
+            if _fresh_local(root_):
                 # a packet built by the hop itself: only a DETACHED forwarder may answer (it refuses a SYN whose acceptor is gone)
                 g_ = [(q.render(f, x_), p_) for x_, p_ in q.guards_at(f, a.site if is_node(a.site) else a.node)]
                 okd = f.norm == 'sim::aux::sink_forwarder::incoming_packet' and any((t_ in ('(m_dst == nullptr)', '(nullptr == m_dst)') and p_) or (t_ in ('m_dst', '(m_dst != nullptr)') and not p_) for t_, p_ in g_)
